@@ -639,6 +639,23 @@ fn mutate(r: &mut Rng, text: &str) -> Ed {
             let new = if r.chance(1, 2) { text[toks[j].0..toks[j].1].to_string() } else { format!("{}_x", &text[toks[i].0..toks[i].1]) };
             Ed { start: toks[i].0, end: toks[i].1, text: new, kind: "rename-one" }
         }
+        95..=97 => {
+            // replace a literal token (or insert before any token) by an odd literal / static expression
+            let lits = literals();
+            let cand: Vec<usize> = (0..toks.len())
+                .filter(|&i| {
+                    let c = text.as_bytes()[toks[i].0];
+                    c.is_ascii_digit() || c == b'"' || (c == b'\'' && toks[i].1 - toks[i].0 == 3)
+                })
+                .collect();
+            let lit = lits[r.below(lits.len())].clone();
+            if cand.is_empty() || r.chance(1, 4) {
+                Ed { start: ts, end: ts, text: format!("{lit} "), kind: "ins-literal" }
+            } else {
+                let (s, e) = toks[*r.pick(&cand)];
+                Ed { start: s, end: e, text: lit, kind: "repl-literal" }
+            }
+        }
         _ => {
             // comment / literal openers
             let o = ["--", "/*", "\"", "'", "\\", "*/", "<<", "x\"", "16#", "1e", "1.", "2#1#e"];
@@ -1090,4 +1107,279 @@ pub fn zoo_cases(seed: u64, mode: usize) -> Vec<Case> {
     let mut v: Vec<Case> = ["d", "c", "s", "l"].iter().map(|r| zoo_batch_case(format!("kb{seed}-{r}"), r)).collect();
     v.extend((0..ZOO_SITES.len()).map(|s| zoo_case(format!("k{seed}-{s}"), s, mode == 1)));
     v
+}
+
+// ------------------------------------------------------------------------------------------------
+// literal family: every kind of (odd) literal and static expression at every expression site
+// ------------------------------------------------------------------------------------------------
+pub fn literals() -> Vec<String> {
+    let mut v: Vec<String> = vec![];
+    // bit strings: base specifier x length prefix x value
+    for base in ["b", "o", "x", "d", "ub", "uo", "ux", "sb", "so", "sx", "SX"] {
+        for len in ["", "0", "1", "4", "3", "12", "4294967296"] {
+            for val in ["", "1", "F", "0F", "-1", "7_7", "ZX", "FFFFFFFFFFFFFFFFF", "_", "G", "10"] {
+                // keep the product bounded: long / odd values only without prefix, with length 0 and with length 4
+                let odd = val.len() > 3 || val == "_" || val == "G" || val == "-1" || val == "ZX" || val == "7_7";
+                if odd && !(len.is_empty() || len == "0" || len == "4") {
+                    continue;
+                }
+                if base == "SX" && !(len == "0" || len == "4") {
+                    continue;
+                }
+                v.push(format!("{len}{base}\"{val}\""));
+            }
+        }
+    }
+    // based literals
+    for s in [
+        "0#0#", "1#0#", "2#1#", "2#2#", "2#1_0#", "16#F#", "16#G#", "16#ff#e1", "16#F#E-1", "17#G#", "99#1#", "2#1.1#", "2#1.1#e2", "16#F.F#E+2", "8#7#e100", "10#1#E999999",
+        "16##", "16#", "16#F", "2#1#e", "2:1:", "16:F:", "2#101#e-1", "36#Z#", "16#FFFFFFFF#", "16#FFFFFFFFFFFFFFFF#", "16#1_0000_0000_0000_0000#", "2#1__0#", "16#_F#",
+    ] {
+        v.push(s.to_string());
+    }
+    // integers, exponents, reals
+    for s in [
+        "0", "1", "-1", "2147483647", "2147483648", "-2147483648", "-2147483649", "4294967295", "4294967296", "9223372036854775807", "9223372036854775808",
+        "18446744073709551615", "18446744073709551616", "340282366920938463463374607431768211456", "1e0", "1e9", "1e10", "1e18", "1e19", "1e20", "1e308", "1e309",
+        "1e4294967296", "1e-1", "1E+2", "1e", "1e+", "1_000", "1__0", "_1", "1_", "007", "0.0", "1.0", "1.5", "-0.0", "1.0e308", "1.0e309", "1.0e-400", "1.", ".5", "1.e1",
+        "1.0e4294967296", "1.0_1", "3.14159265358979323846264338327950288", "123456789012345678901234567890.0", "1.0e-2147483649",
+    ] {
+        v.push(s.to_string());
+    }
+    // physical literals
+    for s in [
+        "1 ns", "1.5 ns", "0 fs", "1 hr", "9223372036854775807 fs", "9223372036854775808 fs", "1e30 sec", "ns", "1 pu", "2 pk", "1000000 pk", "1 unknown_unit", "1.0e400 ns",
+        "-1 ns", "16#F# ns", "1 ps ns", "1ns", "2#1# pu",
+    ] {
+        v.push(s.to_string());
+    }
+    // character and string literals
+    for s in [
+        "'0'", "'1'", "'x'", "'y'", "'z'", "'\u{e9}'", "'''", "' '", "'\u{ff}'", "\"\"", "\"a\"", "\"abc\"", "\"abcd\"", "\"a\"\"b\"", "\"\"\"\"", "\"\u{e9}\u{ff}\"", "\"0101\"", "\"01X1\"", "\"01\"\"1\"",
+        "%abc%", "\"abc", "\"a\" & \"b\"", "\"ab\" & 'c'", "('a', 'b', 'c')", "(1 to 3 => 'a')", "\"\u{20ac}\"",
+    ] {
+        v.push(s.to_string());
+    }
+    // null, aggregates with odd choices, attributes on scalars, static expressions
+    for s in [
+        "null", "open", "true", "false", "ea", "(others => 0)", "(others => '0')", "(others => <>)", "(0 => 1, others => 2, others => 3)", "(3 downto 5 => 0)", "(5 to 3 => '1')",
+        "(0 => 1, 0 => 2)", "(1, 2, others => 3)", "(-1 => 0)", "(2147483647 => 0, 2147483648 => 1)", "(0 to 4294967296 => 0)", "(a => 1, b => '0')", "(a => 1)", "(a | b => 1)",
+        "(a => 1, b => '0', others => 2)", "(others => (others => 0))", "()", "(1)", "((1))", "(1, 2", "(0 to 1 | 3 => 0, 2 => 1)", "(1.0 => 0)", "('a' => 0)", "(ea => 0, eb => 1)",
+        "1'range", "1'length", "integer'range", "integer'length", "3'image", "integer'high + 1", "integer'low - 1", "integer'high * 2", "natural'low - 1", "time'high", "real'high * 10.0",
+        "1 / 0", "1 mod 0", "1 rem 0", "1.0 / 0.0", "0 ** (-1)", "2 ** 31", "2 ** 63", "2 ** 64", "2 ** 1000", "2.0 ** 2000", "(-1) ** 0.5", "1 sll 1", "\"0001\" sll 100", "\"0001\" sll (-1)",
+        "\"0001\" sra 2147483648", "\"1000\" rol (-5)", "x\"F\" srl 4294967296", "not 1", "- '1'", "abs \"01\"", "1 + 1.0", "1 ns / 0", "1 ns / 0 ns", "1 ns * 1e30", "10 ns / 3 ps",
+        "-(-2147483648)", "abs (-2147483648)", "-9223372036854775807 - 1", "(1 + 2) * (3 - 3)", "character'val(256)", "character'val(-1)", "t_en'val(4)", "t_en'pos('x')", "t_en'succ('y')",
+        "t_en'pred(ea)", "t_en'leftof(ea)", "integer'value(\"x\")", "integer'value(\"\")", "integer'image(1)'length", "bit'pos('1')", "boolean'val(2)", "time'pos(1 ns)", "t_ph'val(5000)",
+        "bit_vector'(\"01\")(5)", "string'(\"ab\")(0)", "string'(\"ab\")(3 downto 1)", "c_ia(3)", "c_ia(-1)", "c_ia(5 downto 1)", "c_ia'length(2)", "c_ia'range(0)", "c_ia'left(4294967296)",
+    ] {
+        v.push(s.to_string());
+    }
+    v
+}
+
+pub const LIT_SITES: &[(&str, &str, &str)] = &[
+    ("d", "  constant l_i : integer := @;", "1"),
+    ("d", "  constant l_n : natural := @;", "1"),
+    ("d", "  constant l_r : real := @;", "1.0"),
+    ("d", "  constant l_t : time := @;", "1 ns"),
+    ("d", "  constant l_p : t_ph := @;", "1 pu"),
+    ("d", "  constant l_b : bit := @;", "'1'"),
+    ("d", "  constant l_c : character := @;", "'a'"),
+    ("d", "  constant l_e : t_en := @;", "ea"),
+    ("d", "  constant l_bv : bit_vector := @;", "x\"F\""),
+    ("d", "  constant l_bv4 : bit_vector(3 downto 0) := @;", "x\"F\""),
+    ("d", "  constant l_s : string := @;", "\"ab\""),
+    ("d", "  constant l_s3 : string(1 to 3) := @;", "\"abc\""),
+    ("d", "  constant l_bo : boolean := @;", "true"),
+    ("d", "  constant l_ia : t_ia := @;", "(1, 2)"),
+    ("d", "  constant l_ia2 : t_ia(0 to 1) := @;", "(1, 2)"),
+    ("d", "  constant l_rec : t_r := @;", "(a => 1, b => '0')"),
+    ("d", "  subtype l_st is integer range @ to 3;", "0"),
+    ("d", "  subtype l_st2 is integer range 0 to @;", "3"),
+    ("d", "  subtype l_st3 is real range 0.0 to @;", "1.0"),
+    ("d", "  type l_ta is array (0 to @) of bit;", "3"),
+    ("d", "  type l_ta2 is array (@ downto 0) of bit;", "3"),
+    ("d", "  type l_tr is range 0 to @;", "7"),
+    ("d", "  type l_tr2 is range @ downto 0;", "7"),
+    ("d", "  type l_tf is range 0.0 to @;", "1.0"),
+    ("d", "  type l_tp is range 0 to @ units lu; end units;", "100"),
+    ("d", "  signal l_sv : bit_vector(@ downto 0);", "3"),
+    ("d", "  signal l_sv2 : bit_vector(0 to 3) := (@ => '1', others => '0');", "1"),
+    ("d", "  signal l_sv3 : t_ia(@ to 2);", "0"),
+    ("d", "  constant l_op : boolean := @ = @;", "1"),
+    ("d", "  constant l_op1 : boolean := @ /= 1;", "2"),
+    ("d", "  constant l_op2 : integer := 10 / @;", "2"),
+    ("d", "  constant l_op3 : integer := 2 ** @;", "2"),
+    ("d", "  constant l_op4 : integer := @ mod 3;", "5"),
+    ("d", "  constant l_op5 : bit_vector(3 downto 0) := \"0001\" sll @;", "1"),
+    ("d", "  constant l_op6 : integer := - @;", "1"),
+    ("d", "  constant l_op7 : integer := abs @;", "1"),
+    ("d", "  constant l_op8 : time := @ * 1 ns;", "2"),
+    ("d", "  constant l_op9 : real := 1.0 / @;", "2.0"),
+    ("d", "  constant l_cat : bit_vector := @ & @;", "\"01\""),
+    ("d", "  constant l_cat2 : string := \"x\" & @;", "\"y\""),
+    ("d", "  constant l_len : integer := @'length;", "c_ia"),
+    ("d", "  constant l_q : integer := integer'(@);", "1"),
+    ("d", "  constant l_qb : bit_vector(1 downto 0) := bit_vector'(@);", "\"01\""),
+    ("d", "  constant l_qs : string := string'(@);", "\"ab\""),
+    ("d", "  constant l_img : string := integer'image(@);", "1"),
+    ("d", "  constant l_val : integer := integer'value(@);", "\"1\""),
+    ("d", "  constant l_pos : integer := t_en'pos(@);", "ea"),
+    ("d", "  constant l_vl : t_en := t_en'val(@);", "0"),
+    ("d", "  constant l_idx : integer := c_ia(@);", "0"),
+    ("d", "  constant l_sl : t_ia := c_ia(@ downto 0);", "1"),
+    ("d", "  constant l_sl2 : t_ia := c_ia(0 to @);", "1"),
+    ("d", "  constant l_conv : integer := integer(@);", "1.5"),
+    ("d", "  constant l_conv2 : real := real(@);", "1"),
+    ("d", "  attribute l_at : integer;", "1"),
+    ("d", "  attribute l_at of l_i : constant is @;", "1"),
+    ("d", "  function l_f(x : integer := @) return integer is begin return x; end;", "1"),
+    ("c", "  so <= @;", "x\"FF\""),
+    ("c", "  si <= @;", "1"),
+    ("c", "  with si select so2 <= '1' when @, '0' when others;", "1"),
+    ("c", "  with si select so3 <= '1' when 0 to @, '0' when others;", "1"),
+    ("c", "  lg : for gi in 0 to @ generate begin end generate;", "1"),
+    ("c", "  lg2 : if @ = 1 generate begin end generate;", "1"),
+    ("c", "  lg3 : case @ generate when others => end generate;", "1"),
+    ("c", "  assert false report @;", "\"m\""),
+    ("c", "  so4 <= '1' after @;", "1 ns"),
+    ("c", "  so5 <= '1' when si = @ else '0';", "1"),
+    ("s", "    vi := @;", "1"),
+    ("s", "    vb := @ = 1;", "1"),
+    ("s", "    vb := @ < @;", "1"),
+    ("s", "    vv := @;", "x\"F\""),
+    ("s", "    vs := @;", "\"abcd\""),
+    ("s", "    vr := @;", "1.0"),
+    ("s", "    vt := @;", "1 ns"),
+    ("s", "    vc := @;", "'a'"),
+    ("s", "    case vi is when @ => null; when others => null; end case;", "1"),
+    ("s", "    case vi is when @ to 5 => null; when others => null; end case;", "1"),
+    ("s", "    case vv is when @ => null; when others => null; end case;", "x\"F\""),
+    ("s", "    case vc is when @ => null; when others => null; end case;", "'a'"),
+    ("s", "    case @ is when others => null; end case;", "1"),
+    ("s", "    for li in @ to 2 loop null; end loop;", "0"),
+    ("s", "    for li in 3 downto @ loop null; end loop;", "0"),
+    ("s", "    vi := vv'length + @;", "1"),
+    ("s", "    vi := c_ia(@);", "0"),
+    ("s", "    vv(@) := '1';", "0"),
+    ("s", "    vv(@ downto 0) := \"01\";", "1"),
+    ("s", "    wait for @;", "1 ns"),
+    ("s", "    report \"x\" & @;", "\"y\""),
+    ("s", "    report integer'image(@);", "1"),
+    ("s", "    if @ then null; end if;", "true"),
+    ("s", "    vi := l_f(@);", "1"),
+    ("s", "    so6 <= @ after 1 ns;", "'1'"),
+];
+
+pub fn lit_file(vals: &[String]) -> (String, Vec<usize>) {
+    let mut t = String::from(
+        "package lit_pkg is\n  type t_en is (ea, eb, 'x', 'y');\n  type t_ph is range -1000000 to 1000000 units pu; pk = 1000 pu; end units;\n  type t_ia is array (natural range <>) of integer;\n  type t_r is record a : integer; b : bit; end record;\n  constant c_ia : t_ia(0 to 2) := (1, 2, 3);\nend package;\n\nuse work.lit_pkg.all;\n\nentity lit_ent is\nend entity;\n\narchitecture la of lit_ent is\n  signal so : bit_vector(7 downto 0);\n  signal si : integer;\n  signal so2, so3, so4, so5, so6 : bit;\n",
+    );
+    let mut lines = vec![0usize; LIT_SITES.len()];
+    let count = |s: &str| s.matches('\n').count();
+    let emit = |t: &mut String, lines: &mut Vec<usize>, region: &str| {
+        for (i, (r, tpl, _)) in LIT_SITES.iter().enumerate() {
+            if *r == region {
+                lines[i] = count(t);
+                t.push_str(&tpl.replace('@', &vals[i]));
+                t.push('\n');
+            }
+        }
+    };
+    emit(&mut t, &mut lines, "d");
+    t.push_str("begin\n");
+    emit(&mut t, &mut lines, "c");
+    t.push_str("  lp : process\n    variable vi : integer;\n    variable vb : boolean;\n    variable vv : bit_vector(3 downto 0);\n    variable vs : string(1 to 4);\n    variable vr : real;\n    variable vt : time;\n    variable vc : character;\n  begin\n");
+    emit(&mut t, &mut lines, "s");
+    t.push_str("    wait;\n  end process lp;\nend architecture la;\n");
+    (t, lines)
+}
+
+fn lit_defaults() -> Vec<String> {
+    LIT_SITES.iter().map(|s| s.2.to_string()).collect()
+}
+
+/// per-site sweep: every `stride`-th literal (offset rotates with seed and site) at one site
+pub fn lit_case(id: String, site: usize, stride: usize, offset: usize) -> Case {
+    let defaults = lit_defaults();
+    let (text, lines) = lit_file(&defaults);
+    let line = lines[site] as u32;
+    let tpl = LIT_SITES[site].1;
+    let mut cur = tpl.replace('@', &defaults[site]);
+    let mut edits = vec![];
+    for (k, lit) in literals().iter().enumerate() {
+        if stride > 1 && (k + offset) % stride != 0 {
+            continue;
+        }
+        let new = tpl.replace('@', lit);
+        edits.push(Edit { file: "lits.vhd".into(), range: Some([line, 0, line, cur.encode_utf16().count() as u32]), text: new.clone(), kind: "literal".into() });
+        cur = new;
+    }
+    edits.push(Edit { file: "lits.vhd".into(), range: Some([line, 0, line, cur.encode_utf16().count() as u32]), text: tpl.replace('@', &defaults[site]), kind: "literal-restore".into() });
+    Case { id, family: "lits".into(), std_mode: "std".into(), libs: vec![("lib".to_string(), vec!["lits.vhd".into()])], files: vec![("lits.vhd".to_string(), text)], edits, cursors: vec![] }
+}
+
+/// batch: all sites of one region get the same literal at once, for every literal
+pub fn lit_batch_case(id: String, region: &str) -> Case {
+    let defaults = lit_defaults();
+    let (text, _) = lit_file(&defaults);
+    let mut edits = vec![];
+    for lit in literals().iter() {
+        let vals: Vec<String> = LIT_SITES.iter().enumerate().map(|(i, s)| if s.0 == region { lit.clone() } else { defaults[i].clone() }).collect();
+        let (t, _) = lit_file(&vals);
+        edits.push(Edit { file: "lits.vhd".into(), range: None, text: t, kind: "literal-batch".into() });
+    }
+    edits.push(Edit { file: "lits.vhd".into(), range: None, text: text.clone(), kind: "literal-restore".into() });
+    Case { id, family: "lits-batch".into(), std_mode: "std".into(), libs: vec![("lib".to_string(), vec!["lits.vhd".into()])], files: vec![("lits.vhd".to_string(), text)], edits, cursors: vec![] }
+}
+
+pub fn lit_cases(seed: u64, stride: usize) -> Vec<Case> {
+    let mut v: Vec<Case> = ["d", "c", "s"].iter().map(|r| lit_batch_case(format!("lb{seed}-{r}"), r)).collect();
+    v.extend((0..LIT_SITES.len()).map(|s| lit_case(format!("l{seed}-{s}"), s, stride, (seed as usize).wrapping_mul(7).wrapping_add(s * 5))));
+    v
+}
+
+// ------------------------------------------------------------------------------------------------
+// duplicate files: a file whose units all duplicate the units of another file of the same library
+// ------------------------------------------------------------------------------------------------
+pub fn dup_case(seed: u64, idx: usize, nsteps: usize) -> Case {
+    let mut r = Rng::new(seed.wrapping_mul(7_000_003).wrapping_add(idx as u64));
+    let (mut libs, mut files) = if r.chance(1, 2) { small_project(&mut r) } else { gen_project(&mut r, false, false) };
+    // the file to copy: one with at least one unit, mapped to the first library
+    let cands: Vec<usize> = (0..files.len()).filter(|&i| libs[0].1.contains(&files[i].0) && !unit_starts(&files[i].1).is_empty()).collect();
+    let fi = *r.pick(&cands);
+    let orig_name = files[fi].0.clone();
+    let orig = files[fi].1.clone();
+    let us = unit_starts(&orig);
+    // whole-file copy (2/3) or a partial copy (some units)
+    let copy = if r.chance(2, 3) || us.len() < 2 {
+        orig.clone()
+    } else {
+        let k = 1 + r.below(us.len() - 1);
+        if r.chance(1, 2) { orig[..us[k]].to_string() } else { orig[us[k]..].to_string() }
+    };
+    let dup_name = format!("dup_{}", orig_name.replace('/', "_"));
+    files.push((dup_name.clone(), copy.clone()));
+    libs[0].1.push(dup_name.clone());
+    // scripted part: shift / shrink / empty / restore on both sides (either file may be the one that carries the
+    // duplicate diagnostics: it depends on the order in which the files are added), then random edits on the two
+    let mut edits: Vec<Edit> = vec![];
+    let full = |f: &str, t: &str, k: &str| Edit { file: f.to_string(), range: None, text: t.to_string(), kind: k.to_string() };
+    let (a, b) = if r.chance(1, 2) { (dup_name.clone(), orig_name.clone()) } else { (orig_name.clone(), dup_name.clone()) };
+    let (ta, tb) = if a == dup_name { (copy.clone(), orig.clone()) } else { (orig.clone(), copy.clone()) };
+    edits.push(Edit { file: a.clone(), range: Some([0, 0, 0, 0]), text: "\n\n\n".into(), kind: "dup-shift".into() });
+    let half = floor_boundary(&ta, ta.len() / 2);
+    let (hl, hc) = pos_of(&format!("\n\n\n{ta}"), 3 + half);
+    edits.push(Edit { file: a.clone(), range: Some([hl, hc, u32::MAX, 0]), text: String::new(), kind: "dup-shrink".into() });
+    edits.push(full(&a, "", "dup-empty"));
+    edits.push(full(&a, &ta, "dup-restore"));
+    edits.push(Edit { file: b.clone(), range: Some([0, 0, 0, 0]), text: "-- shifted\n\n".into(), kind: "dup-shift".into() });
+    edits.push(full(&b, "", "dup-empty"));
+    edits.push(full(&a, "", "dup-empty"));
+    edits.push(full(&b, &tb, "dup-restore"));
+    edits.push(full(&a, &ta, "dup-restore"));
+    let cur: Vec<(String, String)> = files.iter().map(|(n, t)| if *n == a { (n.clone(), ta.clone()) } else if *n == b { (n.clone(), tb.clone()) } else { (n.clone(), t.clone()) }).collect();
+    let more = gen_history(&mut r, &cur, nsteps, &[a.clone(), b.clone()]);
+    edits.extend(more);
+    Case { id: format!("d{seed}-{idx}"), family: "dups".into(), std_mode: "std".into(), libs, files, edits, cursors: vec![] }
 }
